@@ -474,7 +474,8 @@ def check(an: Analysis) -> None:
     from . import c05
 
     # C05.5: which alternative of a union converts the value decides whether a container is stored in its immutable form
-    borrow(an, c05.check, {"C05.1": "C04.9", "C05.5": "C04.10"})
+    # C05.14: equal specialisations of a generic State are one class (the cache): "the classes are the same" for Box[int] and Box[int]
+    borrow(an, c05.check, {"C05.1": "C04.9", "C05.5": "C04.10", "C05.14": "C04.11"})
 
 
 def thorough(an: Analysis, repo: str) -> dict:
